@@ -45,7 +45,7 @@ CHECKS["C19"] = {
 
 CHECKS["C12"] = {
     "engine": "sa",
-    "technique": "AST rule set: dunder/operator agreement per return branch, exact changeFrame formula shape, path-sensitive ordering typestate",
+    "technique": "dunder/operator agreement per return branch; changeFrame decided by normal-form equality with the reference frame change (structural formula / ordering typestate as fallback); path summaries of the partially evaluated operators (which payload is combined under which frame facts)",
     "design_ref": "DESIGN.md section 4 C12",
     "text": ("Decides the structural necessary conditions of the wrench/screw laws for all operands: every return branch of "
              "the arithmetic dunders applies that dunder's operator to (self, other) in the implied order (vector-space "
@@ -59,7 +59,7 @@ CHECKS["C12"] = {
 
 CHECKS["C16"] = {
     "engine": "sa",
-    "technique": "path-sensitive must-fact / counting dataflow over one iteration of the growth loop, with staleness tracking of derived locals",
+    "technique": "path-sensitive must-fact / counting dataflow over one iteration of the growth loop (private helpers inlined by AST partial evaluation), with staleness tracking of derived locals",
     "design_ref": "DESIGN.md section 4 C16",
     "text": ("Decides for all seeds, obstruction sets, callbacks and budgets the structural tree invariants of the RRT* growth "
              "loop: exactly one insertion per iteration (root once), stored cost expression and chosen parent always refer "
@@ -73,7 +73,7 @@ CHECKS["C16"] = {
 
 CHECKS["C15"] = {
     "engine": "sa",
-    "technique": "schema conformance by exact polynomial normal forms (abstract interpretation of the loop body into Q[p1,p2,c,h] with |.| atoms)",
+    "technique": "schema conformance by exact polynomial normal forms: the guards on the accepting path of the partially evaluated test (helpers inlined, constant loops unrolled) are interpreted into Q[p1,p2,c,h] with |.| atoms and compared with the six separating-axis inequalities",
     "design_ref": "DESIGN.md section 4 C15",
     "text": ("Decides for every segment and every set of boxes that the obstruction test IS the separating-axis test: the "
              "conditions guarding the accepting path are, as exact polynomial normal forms over the segment end points and "
@@ -233,7 +233,7 @@ CHECKS["C04"] = {
 
 CHECKS["C20"] = {
     "engine": "sa",
-    "technique": "path-counting and guard-dominance dataflow over disp/dispa; dispatch exhaustiveness",
+    "technique": "path-counting and guard-dominance dataflow over disp/dispa (private helpers inlined, copies propagated); dispatch exhaustiveness; data-flow of the formatted text into the result",
     "design_ref": "DESIGN.md section 4 C20",
     "text": ("Decides for arrays of every shape the structural half of 'disp shows every element': disp prints exactly the string "
              "it returns (once, unless noprint); in each dimension branch exactly one rendering per element / sub-array is "
@@ -289,7 +289,7 @@ CHECKS["C10"] = {
 
 CHECKS["C11"] = {
     "engine": "sa",
-    "technique": "structural layout / index-agreement rules and reaching-contribution sets (path-sensitive accumulation analysis)",
+    "technique": "normal-form equality of the inverse-Jacobian row construction with the reference written in the rule (private helpers inlined); wrench sums classified term by term on the path summaries of the partially evaluated methods (helpers inlined, six-leg loops unrolled); routing rules",
     "design_ref": "DESIGN.md section 4 C11",
     "text": ("Decides the structural necessary conditions of the Stewart Jacobian / statics clauses: inverse-Jacobian rows are the "
              "Plucker coordinates [q_i x n_i ; n_i] of leg i (moment first, matching [omega; v] and [moment; force]) with bottom "
